@@ -54,7 +54,7 @@ type LegacyReplay struct {
 }
 
 const c10Rule = "the harness writes legacy stores with its own encoder (version-2 single-file index = 4-byte header length, {2, bits}, size-prefixed record lists appended flush by flush so superseded lists remain; unversioned single-file multihash primary; optional .free with pending entries, records already marked deleted, lost entries) from a generated map history; optionally the legacy primary is cut at or inside a record (entries without primary data); target file-size limits from 1 byte to larger than the whole file; " +
-	"oracle = OpenStore converts and then reads back exactly the reference map through the public API (keys whose data was cut read as absent, never as another key's bytes), an independent fsck of the converted files passes, a generated suffix behaves like the map; crash clause: the conversion runs under the crash recorder (named points in index chunking, primary chunking, freelist application, offset remapping + torn writes) and every captured image must open again and show the same contents. " +
+	"oracle = OpenStore converts and then reads back exactly the reference map through the public API (keys whose data was cut read as absent, never as another key's bytes), no record that the legacy freelist names is live in the converted primary, an independent fsck of the converted files passes, a generated suffix behaves like the map; crash clause: the conversion runs under the crash recorder (named points in index chunking, primary chunking, freelist application, offset remapping + torn writes) and every captured image must open again and show the same contents. " +
 	"non-trivial = conversion producing >=3 primary chunks and >=2 index chunks with >=1 freed record and >=1 bucket whose entries land in different chunks; distinct = distinct canonical JSON of the case / (image hash)"
 
 func genLegacy(t *rapid.T) LegacyCase {
@@ -72,7 +72,11 @@ func genLegacy(t *rapid.T) LegacyCase {
 			op.Key = rapid.IntRange(0, len(c.Keys)-1).Draw(t, "key")
 		}
 		if op.K == "put" {
-			op.VLen = []int{0, 1, 3, 8, 20, 40, 100}[weighted(t, "vlen", []int{2, 2, 3, 4, 4, 2, 1})]
+			// Also records larger than the copy buffers of the conversion.
+			op.VLen = []int{0, 1, 3, 8, 20, 40, 100, 1100, 3000, 70000}[weighted(t, "vlen", []int{4, 4, 6, 8, 8, 4, 2, 2, 1, 0})]
+			if weighted(t, "hugevalue", []int{200, 1}) == 1 {
+				op.VLen = 70000
+			}
 		}
 		return op
 	}), 2, 40).Draw(t, "hist")
@@ -96,6 +100,11 @@ type legacyBuild struct {
 	idxRecs    int
 	multiChunk bool // some bucket's entries name records in different target chunks
 	dangling   bool // the final index names records that were cut off the primary
+	// freedPending: content (key || value) of the records that the freelist
+	// file names -> how many such records; liveSame: how many further records
+	// of the same content exist that are not freed (values repeat rarely).
+	freedPending map[string]int
+	liveSame     map[string]int
 }
 
 func le32(v uint32) []byte {
@@ -222,6 +231,22 @@ func writeLegacy(dir string, c LegacyCase) legacyBuild {
 			b.freed++
 		}
 	}
+	// What the pending freelist entries name, by content.
+	b.freedPending, b.liveSame = map[string]int{}, map[string]int{}
+	pendingIdx := map[int]bool{}
+	for j, ri := range superseded {
+		if c.FreeMode[j%len(c.FreeMode)] == 0 && !c.NoFree {
+			pendingIdx[ri] = true
+		}
+	}
+	for ri, r := range recs {
+		content := string(prim[r.off+4 : r.off+4+r.size])
+		if pendingIdx[ri] {
+			b.freedPending[content]++
+		} else if u32(prim[r.off:])&fsckDeleted == 0 {
+			b.liveSame[content]++
+		}
+	}
 	// Corrupted legacy primary: cut records off the end.
 	cutAt := uint64(len(prim))
 	if c.DropTail > 0 && len(recs) > 0 {
@@ -300,7 +325,40 @@ type legacyStats struct {
 
 // checkConverted opens dir (converting or resuming the conversion), compares
 // with the model, runs fsck and the suffix.
-func checkConverted(dir string, cfg Config, keys []KeySpec, model map[string][]byte, suffix []Op, site string, dangling bool, rec *crashRecorder) (st legacyStats, v *Violation) {
+// freedStillLive scans the converted primary files: a record that the legacy
+// freelist named must not be live there any more (the conversion applies the
+// freelist before it splits the primary).
+func freedStillLive(dir string, freedPending, liveSame map[string]int) string {
+	if len(freedPending) == 0 {
+		return ""
+	}
+	live := map[string]int{}
+	for _, n := range numberedFiles(dir, dataBase) {
+		data, err := os.ReadFile(filepath.Join(dir, fmt.Sprintf("%s.%d", dataBase, n)))
+		if err != nil {
+			continue
+		}
+		for pos := 0; pos+4 <= len(data); {
+			sz := u32(data[pos:])
+			size := int(sz &^ fsckDeleted)
+			if pos+4+size > len(data) {
+				break
+			}
+			if sz&fsckDeleted == 0 {
+				live[string(data[pos+4:pos+4+size])]++
+			}
+			pos += 4 + size
+		}
+	}
+	for content := range freedPending {
+		if live[content] > liveSame[content] {
+			return fmt.Sprintf("a record of %d bytes (%s...) that the legacy freelist names is still live after the conversion (%d live copies, %d of that content were never freed)", len(content), shortBytes([]byte(content)), live[content], liveSame[content])
+		}
+	}
+	return ""
+}
+
+func checkConverted(dir string, cfg Config, keys []KeySpec, model map[string][]byte, suffix []Op, site string, dangling bool, rec *crashRecorder, freed ...map[string]int) (st legacyStats, v *Violation) {
 	sub := &seqRunner{c: SeqCase{Cfg: cfg, Keys: keys, Ops: suffix}, dir: dir, model: map[string][]byte{}, everFlushed: map[string]bool{}}
 	sub.stats.GCKinds = map[string]bool{}
 	for k, val := range model {
@@ -347,6 +405,11 @@ func checkConverted(dir string, cfg Config, keys []KeySpec, model map[string][]b
 		return sub.checkIter(-1, "converted")
 	}); v != nil {
 		return st, wrap(v)
+	}
+	if len(freed) == 2 {
+		if msg := freedStillLive(dir, freed[0], freed[1]); msg != "" {
+			return st, wrap(viol("freed-record-still-live|converted|", -1, "%s", msg))
+		}
 	}
 	// Independent consistency check of the converted files.
 	if v := guard(-1, "upgrade-fsck", func() *Violation {
@@ -412,7 +475,7 @@ func exploreLegacy(ev *Evidence, c LegacyCase, exhaustive bool, fatalf func(stri
 	rec := newCrashRecorder(dir)
 	rec.curOp = 0
 	rec.capture("legacy-store", true)
-	st, v := checkConverted(dir, cfg, c.Keys, build.model, c.Suffix, "no-crash", build.dangling, rec)
+	st, v := checkConverted(dir, cfg, c.Keys, build.model, c.Suffix, "no-crash", build.dangling, rec, build.freedPending, build.liveSame)
 	st.build = build
 	nt := st.primChunks >= 3 && st.idxChunks >= 2 && build.freed >= 1 && build.multiChunk
 	cl := []string{"conversion"}
